@@ -25,15 +25,16 @@ Theorem row_context_background_lost :
             painted (paint_ctx (from_box t)) 6 LContent = true.
 Proof. exists w_row. vm_compute. repeat split. Qed.
 
-(* 2. a grid container that forms a stacking context: GridBox is not in the point 2 tuple *)
+(* 2. (was a finding, fixed in /repo 22caa46: GridContainerBox joined the point 2 tuple) a grid container that
+      forms a stacking context paints its own background and border, as Appendix E steps 1-2 say *)
 Definition w_grid : box :=
   Box (plain 0 KBlock)
     [Box (I 1 KGrid PStatic None TNone 2) [Box (plain 2 KBlock) [Box (plain 3 KLine) [Box (plain 4 KText) []]]]].
 
-Theorem grid_context_background_lost :
-  exists t, painted (appendix_E_paint t) 1 LBg = true /\ painted (paint_ctx (from_box t)) 1 LBg = false /\
-            painted (paint_ctx (from_box t)) 2 LBg = true.
-Proof. exists w_grid. vm_compute. repeat split. Qed.
+Example grid_context_background_painted :
+  painted (appendix_E_paint w_grid) 1 LBg = true /\ painted (paint_ctx (from_box w_grid)) 1 LBg = true /\
+  painted (paint_ctx (from_box w_grid)) 1 LBorder = true /\ wf w_grid = true.
+Proof. vm_compute. repeat split. Qed.
 
 (* 3. z-index on a box that is not positioned (and is not a grid item) but forms a stacking context through
       opacity: CSS 2.1 9.9.1 says z-index does not apply, so the box is painted with the z = 0 contexts (after the
